@@ -88,6 +88,11 @@ func lintCheck(r *hx.Rng, n int) (fails []failure, colCases []string, count int)
 			} else {
 				put("    " + key.name + ":")
 				for i := 0; i < 1+r.Intn(3); i++ {
+					if r.Chance(1, 5) {
+						// an empty entry (reported by the parser, not by the glob rule); the entries
+						// after it are validated all the same
+						put("      - " + []string{"''", "\"\""}[r.Intn(2)])
+					}
 					txt, q, p := scalar()
 					put("      - " + txt)
 					vals = append(vals, filterVal{line, 9, q, key.isRef, p})
